@@ -25,7 +25,8 @@ def _shard(name, shard, nshards, tier, seed):
             c.skipped += 1
             continue
         ops.append(op); impls.append(steps)
-        sigs.append((tuple(s['h'] for s in op['steps']), len(op['pool'][0]['obj']['A']), len(op['pool'][0]['obj']['qd'])))
+        p0 = op['pool'][0]['obj'] if op['pool'] else {'A': [], 'qd': []}
+        sigs.append((tuple(s['h'] for s in op['steps']), len(p0['A']), len(p0['qd']), len(op['pool'])))
         if meta['inexact']:
             c.skipped += 1
     replies = common.drive(ops)
@@ -91,7 +92,7 @@ def oracle_history(rng, nsteps):
     from .c01 import dense_mps, dense_mpo
     pool = [rnd_like(rng, o, rng.random() < 0.5) for o in history.init_pool(rng)]
     log = []
-    if rng.random() < 0.25:
+    if rng.random() < 0.25 and pool:
         # construction with a numeric fill: the constructor itself must enforce the additive rule
         for cls in (ptn.MPS, ptn.MPO):
             o0 = pool[0] if cls is ptn.MPS else pool[-1]
@@ -105,7 +106,7 @@ def oracle_history(rng, nsteps):
             if not history.wf(o):
                 return f'{cls.__name__}(qd={o0.qd.tolist()}, qD={[q.tolist() for q in qD]}, fill={fill}) has non-zero entries violating the quantum-number rule', log
             pool.append(o)
-    if rng.random() < 0.3:
+    if rng.random() < 0.3 and pool:
         # pool without quantum numbers, seeded with states built by MPS.from_vector (truncating: tol > 0, product states, exact zeros)
         L = pool[0].nsites; d = len(pool[0].qd)
         for o in pool:
@@ -132,7 +133,7 @@ def oracle_history(rng, nsteps):
             if not history.wf(pool[-1]):
                 return (f'MPS.from_vector(d={d}, nsites={L}, tol={tol}) returns an object whose quantum-number lists do not have the '
                         f'lengths of the bond dimensions: {[len(q) for q in pool[-1].qD]} vs {pool[-1].bond_dims}'), log
-    if rng.random() < 0.35:
+    if rng.random() < 0.35 and pool:
         # a state in an empty sector (the zero state): every tensor splitting then goes through the dummy-bond branches
         L0 = pool[0].nsites
         z = rnd_like(rng, mpsgen.rand_mps(rng, L=L0, qd=pool[0].qd.copy(), maxD=2, consistent=False,
@@ -202,6 +203,8 @@ def oracle_history(rng, nsteps):
             elif h == 'copy':
                 o = pool[op['i']]
                 pool.append(mpsgen.copy_mpo(o) if type(o).__name__ == 'MPO' else mpsgen.copy_mps(o))
+            elif h in ('new_mps', 'new_mpo', 'identity', 'from_opgraph', 'resplit'):
+                history.apply_op_real(pool, op)     # creating operations and re-splitting (real kernels)
         except Exception as ex:
             if isinstance(ex, (np.linalg.LinAlgError, FloatingPointError, OverflowError)) or \
                     any(a is not None and (not np.all(np.isfinite(a)) or np.abs(a).max(initial=0) > 1e120) for o in pool for a in o.A):
